@@ -3,7 +3,7 @@ package main
 func init() {
 	register(&Property{
 		ID: "C07", Level: "exploration", Builds: []string{"plain"},
-		Rule: "cases = population histories (40-90 steps, up to 7 live bitmaps with models): create from others via Clone / static And,Or,Xor,AndNot / static Flip / AddOffset64 / FastOr,FastAnd,HeapOr,HeapXor / ParOr,ParAnd,ParHeapOr (lists of 0..5 with duplicates and empties, workers 0..7); toggle copy-on-write on any; mutate any (point, range, flip, RunOptimize, in-place algebra with another live bitmap or itself, AndAny); drop. Decisive oracle: after EVERY step EVERY live bitmap equals its model (decoded from raw containers) and variadic argument slices are unchanged. Structural monitor: hook views joined on container identity and overlapping backing arrays; a chunk reachable from two owners but not flagged shared on both sides is a suspect that is confirmed or refuted by a probing in-place write the next step. 64-bit counterpart in unit pop64. Non-trivial: history with >= 2 live bitmaps and >= 1 mutation after a creation; distinct = hash of the step list.",
+		Rule:        "cases = population histories (40-90 steps, up to 7 live bitmaps with models): create from others via Clone / static And,Or,Xor,AndNot / static Flip / AddOffset64 / FastOr,FastAnd,HeapOr,HeapXor / ParOr,ParAnd,ParHeapOr (lists of 0..5 with duplicates and empties, workers 0..7); toggle copy-on-write on any; mutate any (point, range, flip, RunOptimize, in-place algebra with another live bitmap or itself, AndAny); drop. Decisive oracle: after EVERY step EVERY live bitmap equals its model (decoded from raw containers) and variadic argument slices are unchanged. Structural monitor: hook views joined on container identity and overlapping backing arrays; a chunk reachable from two owners but not flagged shared on both sides is a suspect that is confirmed or refuted by a probing in-place write the next step. 64-bit counterpart in unit pop64. Non-trivial: history with >= 2 live bitmaps and >= 1 mutation after a creation; distinct = hash of the step list.",
 		Assumptions: []string{"interval-set model validated by selfcheck", "documented no-copy constructors (Roaring32AsRoaring64, BSI FromBitmaps) are excluded", "pointer identities read through the hook are compared as integers (non-moving Go heap)"},
 		Units: []Unit{
 			{Name: "population", Quick: 1500, Thorough: 80000, Run: c07Pop},
